@@ -308,6 +308,7 @@ pub fn formats() -> Vec<FormatDef> {
     vec![
         FormatDef {
             name: "blp",
+            family: "blp",
             entries: &["parse_blp", "blp_to_image"],
             seeds: blp_seeds,
             drive: blp_drive,
@@ -317,6 +318,7 @@ pub fn formats() -> Vec<FormatDef> {
         },
         FormatDef {
             name: "dbc",
+            family: "dbc",
             entries: &["DbcParser::parse_bytes", "DbcParser::parse_records", "DbcParser::with_schema", "RecordSet walk"],
             seeds: dbc_seeds,
             drive: dbc_drive,
